@@ -56,7 +56,7 @@ def explore(ck):
             b = Block(prev, txs, time=1400000000 + h); blocks.append(b); prev = b.hash; h += 1
         c = Case('o%d' % k, coin).simple_layout(blocks)
         if k % 3 == 2 and len(blocks) > 2: c.start = 1; c.end = len(blocks) - 2
-        if k % 4 == 1 and len(blocks) > 2:
+        if k % 4 == 1 and len(blocks) > 2 and c.end is None:      # (a case with --end below the last block would never reach the cut)
             # the blk file ends inside the last block: the run fails there, the lines of the earlier blocks have been printed
             o, dta = c.files[0][-1]; c.files[0][-1] = (o, dta[:len(dta) - len(blocks[-1].raw) // 2]); c.meta['cut'] = True
         if k % 3 == 1: c.verbosity = 1          # -v
